@@ -18,7 +18,7 @@ const UNITS: &[&str] = &["u1", "u2", "u3", "u4"];
 
 fn gen_example(rng: &mut Rng, units: bool) -> Value {
     let url = match rng.below(8) { 0 => "https://example.org/a".to_string(), 1 => "/a?x=1".to_string(), 2 => "http://other.net/b".to_string(), _ => rng.pick(PATHS).to_string() };
-    json!({"url": url, "method": match rng.below(4) { 0 => json!("POST"), 1 => json!("GET"), _ => Value::Null },
+    json!({"url": url, "method": match rng.below(5) { 0 | 1 => json!("POST"), 2 => json!("GET"), _ => Value::Null },
            "headers": if rng.chance(1, 4) { json!([{"name": "X-A", "value": "1"}]) } else { Value::Null },
            "ip_address": Value::Null,
            "response_status_code": match rng.below(5) { 0 => json!(404), 1 => json!(200), 2 => json!(301), _ => Value::Null },
@@ -28,7 +28,7 @@ fn gen_example(rng: &mut Rng, units: bool) -> Value {
 
 fn gen_rule(rng: &mut Rng, id: &str, version: usize) -> Value {
     let status: Value = match rng.below(8) { 0 => Value::Null, 1 => json!(0), 2 | 3 => json!(301), 4 => json!(302), 5 => json!(307), 6 => json!(308), _ => json!(410) };
-    let target: Value = match rng.below(8) { 0 => Value::Null, 1 => json!("https://example.org/b"), 2 => json!("http://other.net/z"), 3 => json!("c"), 4 => json!("/a?x=1"), _ => json!(*rng.pick(PATHS)) };
+    let target: Value = match rng.below(9) { 8 => json!("__SELF__"), 0 => Value::Null, 1 => json!("https://example.org/b"), 2 => json!("http://other.net/z"), 3 => json!("c"), 4 => json!("/a?x=1"), _ => json!(*rng.pick(PATHS)) };
     let codes: Value = match rng.below(4) { 0 => json!([404]), 1 => json!([200, 301]), _ => Value::Null };
     let hf: Value = match rng.below(4) { 0 => json!([{"action": "add", "header": "X-V", "value": format!("{}v{}", id, version), "id": *rng.pick(UNITS), "target_hash": "h1"}]),
                                          1 => json!([{"action": "override", "header": "Location", "value": *rng.pick(PATHS), "id": *rng.pick(UNITS), "target_hash": "h2"}]), _ => Value::Null };
@@ -36,8 +36,10 @@ fn gen_rule(rng: &mut Rng, id: &str, version: usize) -> Value {
                                          1 => json!([{"action": "append_child", "value": format!("<i>{}</i>", id), "element_tree": ["html", "body"], "css_selector": null, "id": *rng.pick(UNITS), "target_hash": "b2"}]), _ => Value::Null };
     let nex = rng.below(3);
     let examples: Value = if nex == 0 && rng.chance(1, 2) { Value::Null } else { json!((0..nex).map(|_| gen_example(rng, false)).collect::<Vec<_>>()) };
+    let path = *rng.pick(PATHS);
+    let target = if target == json!("__SELF__") { json!(path) } else { target };
     json!({"id": id, "rank": rng.below(3), "status_code": status, "target": target,
-           "source": {"path": *rng.pick(PATHS), "host": match rng.below(5) { 0 => json!("example.org"), _ => Value::Null },
+           "source": {"path": path, "host": match rng.below(5) { 0 => json!("example.org"), _ => Value::Null },
                       "methods": match rng.below(6) { 0 => json!(["GET"]), 1 => json!(["POST"]), _ => Value::Null },
                       "response_status_codes": codes, "exclude_response_status_codes": if rng.chance(1, 6) { json!(true) } else { Value::Null }},
            "header_filters": hf, "body_filters": bf,
@@ -135,6 +137,24 @@ fn live_pipeline(router: &Router<Rule>, example: &Example) -> Option<Value> {
     Some(json!({"status_code": final_code, "headers": headers.iter().map(|h| json!({"name": h.name, "value": h.value})).collect::<Vec<_>>(), "body": String::from_utf8_lossy(&out), "log": log}))
 }
 
+/// one hop of the redirect chain, computed independently of RedirectionLoop: the live pipeline for (url, method), the
+/// Location joined to the current url, the 301/302 method rewrite, and whether the target leaves the project's domains
+fn one_hop(router: &Router<Rule>, example: &Example, url: &str, method: &str, domains: &[String]) -> Option<(String, String, u64, bool)> {
+    let ex = example.with_url(url.to_string()).with_method(Some(method.to_string()));
+    let request = Request::from_example(&router.config, &ex).ok()?;
+    let routes = router.match_request(&request);
+    let mut action = Action::from_routes_rule(routes, &request, None);
+    let at_request = action.get_status_code(0, None);
+    let (final_code, backend) = if at_request != 0 { (at_request, at_request) } else { let b = ex.response_status_code.unwrap_or(200); (action.get_status_code(b, None), b) };
+    if ![301u16, 302, 307, 308].contains(&final_code) { return None; }
+    let headers = action.filter_headers(Vec::new(), backend, false, None);
+    let location = headers.iter().find(|h| h.name.to_lowercase() == "location")?.value.clone();
+    let next_url = match url::Url::parse(url) { Ok(base) => match base.join(&location) { Ok(u) => u.to_string(), Err(_) => location.clone() }, Err(_) => location.clone() };
+    let next_method = if final_code == 301 || final_code == 302 { "GET".to_string() } else { method.to_string() };
+    let external = match url::Url::parse(&next_url) { Ok(u) => !domains.is_empty() && !u.host_str().map(|h| domains.iter().any(|d| d == h)).unwrap_or(false), Err(_) => false };
+    Some((next_url, next_method, final_code as u64, external))
+}
+
 pub fn run_case(id: usize, input: &Value) {
     let inp = input.clone();
     let res = catch(move || {
@@ -166,7 +186,22 @@ pub fn run_case(id: usize, input: &Value) {
         let imp = &inp["impact"];
         let i_proj = ImpactOutput::from_impact_project(serde_json::from_value(json!({"max_hops": max_hops, "with_redirection_loop": imp["with_loop"], "domains": domains, "rule": imp["rule"], "action": imp["action"], "change_set": change_set})).unwrap(), existing.clone());
         let i_alone = ImpactOutput::create_result(serde_json::from_value(json!({"router_config": inp["cfg"], "max_hops": max_hops, "with_redirection_loop": imp["with_loop"], "domains": domains, "rule": imp["rule"], "action": imp["action"], "rules": fin})).unwrap());
-        let impact_same = proj_impacts(&serde_json::to_value(&i_proj).unwrap()) == proj_impacts(&serde_json::to_value(&i_alone).unwrap());
+        let i_alone_j = serde_json::to_value(&i_alone).unwrap();
+        let mut impact_same = proj_impacts(&serde_json::to_value(&i_proj).unwrap()) == proj_impacts(&i_alone_j);
+        // the response impact reports for each example of the rule = the live pipeline on the router it describes
+        {
+            let mut ir = Router::<Rule>::from_config(cfg.clone());
+            let irule: Rule = serde_json::from_value(imp["rule"].clone()).unwrap();
+            for r in &fin { let rr: Rule = serde_json::from_value(r.clone()).unwrap(); if rr.id != irule.id { ir.insert(rr); } }
+            if imp["action"] == "add" || imp["action"] == "update" { ir.insert(irule.clone()); }
+            for i in i_alone_j["impacts"].as_array().unwrap() {
+                if !i["error"].is_null() { continue; }
+                let ex: Example = serde_json::from_value(i["example"].clone()).unwrap();
+                let live = live_pipeline(&ir, &ex);
+                let reported = json!({"status_code": i["response"]["status_code"], "headers": i["response"]["headers"], "body": i["response"]["body"], "log": i["should_log_request"]});
+                if live.as_ref() != Some(&reported) { impact_same = false; }
+            }
+        }
         // 5. the reported response against the live pipeline on a router built from scratch
         let mut fresh = Router::<Rule>::from_config(cfg.clone());
         for r in &fin { fresh.insert(serde_json::from_value::<Rule>(r.clone()).expect("rule")); }
@@ -182,17 +217,15 @@ pub fn run_case(id: usize, input: &Value) {
         let mut k = 0usize;
         while k < nodes.len() && k < 12 {
             let (u, m) = nodes[k].clone();
-            let mut ex = inp["example"].clone(); ex["url"] = json!(u); ex["method"] = json!(m);
-            let one = ExplainRequestOutput::create_result_from_project(serde_json::from_value(json!({"example": ex, "change_set": {"added": [], "updated": [], "deleted": []}, "max_hops": 1, "project_domains": domains})).unwrap(), fresh.clone());
-            let entry = match one.ok().map(|o| serde_json::to_value(&o).unwrap()["redirection_loop"].clone()) {
-                Some(l) if l["hops"].as_array().map(|h| h.len()).unwrap_or(0) == 2 => {
-                    let h = &l["hops"][1];
-                    let nn = (h["url"].as_str().unwrap().to_string(), h["method"].as_str().unwrap().to_string());
+            let doms: Vec<String> = domains.as_array().map(|a| a.iter().map(|x| x.as_str().unwrap().to_string()).collect()).unwrap_or_default();
+            let entry = match one_hop(&fresh, &example, &u, &m, &doms) {
+                Some((nu, nm, code, external)) => {
+                    let nn = (nu, nm);
+                    let self_loop = nn == nodes[k];
                     let idx = match nodes.iter().position(|x| *x == nn) { Some(i) => i, None => { nodes.push(nn); nodes.len() - 1 } };
-                    let err = l["error"].as_str().unwrap_or("");
-                    (k, Some((idx, h["status_code"].as_u64().unwrap())), err == "", err == "Loop")
+                    (k, Some((idx, code)), external, self_loop)
                 }
-                _ => (k, None, false, false),
+                None => (k, None, false, false),
             };
             table.push(entry);
             k += 1;
